@@ -325,7 +325,7 @@ REF_OFFSETS = {"dod": {"day": 1, "week": 1, "month": 1, "quarter": 1, "year": 1}
                "prior_period": {"day": 1, "week": 1, "month": 1, "quarter": 1, "year": 1}}
 
 
-def offset_cell(ctype, gran, calc="difference"):
+def offset_cell(ctype, gran, calc="difference", base="simple"):
     """One long gap-free series (comparison offset + 3 periods, two categories) through the real code: the period-over-period column
     must equal base(t) - base(t - offset) within each category, from the implementation's own base column.  -> (ok, detail)"""
     from sidemantic import Dimension, Metric, Model
@@ -337,20 +337,27 @@ def offset_cell(ctype, gran, calc="difference"):
     L.conn.execute("insert into t select i * 2 + j, TIMESTAMP '2019-01-07 10:00:00' + i * %s, ['a', 'b'][j + 1], (i * 37 + j * 11) %% 101 + i from range(%d) r(i), range(2) s(j)" % (step, n))
     L.add_model(Model(name="t", table="t", primary_key="id",
                       dimensions=[Dimension(name="ts", type="time", granularity=gran, sql="ts"), Dimension(name="ts_cat", type="categorical", sql="cat")],
-                      metrics=[Metric(name="tv", agg="sum", sql="v"),
-                               Metric(name="m0", type="time_comparison", base_metric="t.tv", comparison_type=ctype, calculation=calc)]))
-    sql = L.compile(metrics=["t.tv", "t.m0"], dimensions=["t.ts__%s" % gran, "t.ts_cat"])
+                      metrics=[Metric(name="tv", agg="sum", sql="v"), Metric(name="tn", agg="count"), Metric(name="tx", agg="max", sql="v"),
+                               # the BASE of the comparison: a simple measure, a ratio, a derived formula (qualified or not), a derived formula over a ratio
+                               Metric(name="rt", type="ratio", numerator="t.tv", denominator="t.tn"), Metric(name="dv", type="derived", sql="tv + tx * 2"),
+                               Metric(name="dq", type="derived", sql="t.tv - t.tn"), Metric(name="dr", type="derived", sql="rt * 10 + tn")] +
+                              ([] if base == "graph" else [Metric(name="m0", type="time_comparison", base_metric={"simple": "t.tv", "ratio": "t.rt", "derived": "t.dv", "derived_q": "t.dq", "nested": "t.dr"}[base],
+                                                                  comparison_type=ctype, calculation=calc)])))
+    if base == "graph":
+        L.add_metric(Metric(name="m0", type="time_comparison", base_metric="t.dq", comparison_type=ctype, calculation=calc))     # a graph-level comparison over a model's derived metric
+    bcol = {"simple": "tv", "ratio": "rt", "derived": "dv", "derived_q": "dq", "nested": "dr", "graph": "dq"}[base]
+    sql = L.compile(metrics=["t." + bcol, "m0" if base == "graph" else "t.m0"], dimensions=["t.ts__%s" % gran, "t.ts_cat"])
     cur = L.conn.execute(sql)
     cols = [d[0] for d in cur.description]
     rows = cur.fetchall()
-    it, ic, iv, im = cols.index("ts__%s" % gran), cols.index("ts_cat"), cols.index("tv"), (cols.index("m0") if "m0" in cols else cols.index("t.m0"))
+    it, ic, iv, im = cols.index("ts__%s" % gran), cols.index("ts_cat"), cols.index(bcol), (cols.index("m0") if "m0" in cols else cols.index("t.m0"))
     bad = []
     for cat in ("a", "b"):
         ser = sorted((r for r in rows if r[ic] == cat), key=lambda r: r[it])
         if len(ser) != n:
             return False, "series of %d periods came back as %d rows" % (n, len(ser))
         for i, r in enumerate(ser):
-            want = None if i < k else ser[i][iv] - ser[i - k][iv]
+            want = None if i < k else float(ser[i][iv]) - float(ser[i - k][iv])
             got = r[im]
             if (want is None) != (got is None) or (want is not None and abs(float(got) - float(want)) > 1e-9):
                 bad.append((cat, str(r[it]), None if got is None else float(got), want))
@@ -376,9 +383,22 @@ def offset_cells(c):
         if not ok:
             nbad += 1
             c.violation("a %s comparison at %s granularity is not base(t) - base(t - %d periods)" % (ct, g, REF_OFFSETS[ct][g]), {"kind": "offset_cell", "ctype": ct, "gran": g, "detail": detail})
+    # the same cells (offsets up to 13 periods) with a COMPOSITE base metric: a ratio, a derived formula with unqualified / qualified components, a derived formula over a
+    # ratio, and a graph-level comparison over a model's derived metric -- the comparison is still base(t) - base(t - offset) of the implementation's own base column
+    ncomp = 0
+    for base in ("ratio", "derived", "derived_q", "nested", "graph"):
+        for ct, g in [x for x in cells if REF_OFFSETS[x[0]][x[1]] <= 13 and (c.tier == "thorough" or (len(x[0]) + len(x[1]) + len(base)) % 3 == 0)]:
+            ncomp += 1
+            try:
+                ok, detail = offset_cell(ct, g, base=base)
+            except Exception as e:
+                ok, detail = False, {"error": str(e)[:300]}
+            if not ok:
+                nbad += 1
+                c.violation("a %s comparison at %s granularity over a %s base metric is not base(t) - base(t - %d periods)" % (ct, g, base, REF_OFFSETS[ct][g]), {"kind": "offset_cell", "ctype": ct, "gran": g, "base": base, "detail": detail})
     c.obligation("oracle: period-over-period columns on %d long gap-free series (one per comparison type x granularity, offset + 3 periods, two categories) == base(t) - base(t - offset); "
                  "_calculate_lag_offset == the documented offsets on all 30 cells" % len(cells), nbad == 0 and not table_bad, "correspondence", repr(table_bad[:4]))
-    return len(cells)
+    return len(cells) + ncomp
 
 
 def run(c):
